@@ -24,6 +24,7 @@ def specs(tier):
         J('m-deposed3-ahead:H3R1', 'm_deposed', dict(n=3, dyn=True), dict(H=3, R=1), dict(unnoticed=True), extra_monitors=api),
         J('m-deposed3-addexisting:H2R2', 'm_deposed', dict(n=3, dyn=True), dict(H=2, R=2), dict(op='add'), extra_monitors=api),
         J('m-readd-lateack3+1-b24:H1', 'm_readd_lateack', dict(n=3, dyn=True, spare=1, batch_bytes=24), dict(H=1), extra_monitors=api),
+        J('m-deposed3+1-repeat:H2R2', 'm_deposed', dict(n=3, dyn=True, spare=1), dict(H=2, R=2), dict(op='add', victim='n4:1', newk=0, repeat=True), extra_monitors=api),
         J('m-deposed3-tail2:H2R2', 'm_deposed', dict(n=3, dyn=True), dict(H=2, R=2), dict(pre=1, newk=0), extra_monitors=api),
         J('m-lagsnap-added3+1:H2R1', 'm_lagsnap_added', dict(n=3, dyn=True, spare=1), dict(H=2, R=1), extra_monitors=api),
         J('m-lagsnap3:H2R1', 'lagging_snap', dict(n=3, dyn=True), dict(H=2, R=1), extra_monitors=api),
